@@ -28,6 +28,7 @@ from .common import (
     DISPATCHER,
     cached_methods,
     is_empty_dict,
+    is_empty_list,
     is_notify,
     resolve_root,
     self_attr_reads,
@@ -372,6 +373,7 @@ def _unscheduled_observer(ctx):
     # reset: rebinds the per-job list from a comprehension over instance.jobs
     ok = False
     shallow = None
+    rst = ctx.norm.flat(rst, depth=2)  # private factories (used by __init__ and reset) inlined
     for n in own_nodes(rst.node):
         if isinstance(n, ast.Assign) and any(
             isinstance(t, ast.Attribute) and t.attr == "unscheduled_operations_per_job" for t in n.targets
@@ -389,6 +391,8 @@ def _unscheduled_observer(ctx):
                     # (C12's pristine-source rule guards the template)
                     ok = True
             elif isinstance(v, ast.Call) and ast.unparse(v.func).split(".")[-1] == "deepcopy":
+                ok = True
+            elif isinstance(v, ast.Name) and _filled_per_job(rst, v.id):
                 ok = True
             else:
                 src = _shallow_source(v, rst.params[0])
@@ -420,6 +424,60 @@ def _unscheduled_observer(ctx):
             )
         else:
             raise AnalysisError(f"{rst.qualname}: reset shape not recognised")
+
+
+def _filled_per_job(fi, name):
+    """``name = []`` then ``for job in <...>.jobs: name.append(<fresh deque of
+    job>)`` - the incremental spelling of the comprehension."""
+    init = any(
+        isinstance(n, (ast.Assign, ast.AnnAssign)) and n.value is not None and is_empty_list(n.value)
+        and any(isinstance(t, ast.Name) and t.id == name for t in (n.targets if isinstance(n, ast.Assign) else [n.target]))
+        for n in own_nodes(fi.node)
+    )
+    if not init:
+        return False
+    for lp in own_nodes(fi.node):
+        if not (isinstance(lp, ast.For) and isinstance(lp.iter, ast.Attribute) and lp.iter.attr == "jobs" and isinstance(lp.target, ast.Name)):
+            continue
+        job = lp.target.id
+        if any(isinstance(x, (ast.Break, ast.Continue, ast.If)) for st in lp.body for x in ast.walk(st)):
+            return False
+        apps = [
+            c for st in lp.body for c in ast.walk(st)
+            if isinstance(c, ast.Call) and isinstance(c.func, ast.Attribute) and c.func.attr == "append"
+            and isinstance(c.func.value, ast.Name) and c.func.value.id == name and len(c.args) == 1
+        ]
+        if len(apps) != 1:
+            return False
+        a = apps[0].args[0]
+
+        def is_deque_call(e, with_job):
+            if not (isinstance(e, ast.Call) and ast.unparse(e.func).split(".")[-1] == "deque"):
+                return False
+            if with_job:
+                return len(e.args) == 1 and isinstance(e.args[0], ast.Name) and e.args[0].id == job
+            return not e.args
+
+        if is_deque_call(a, True):
+            return True
+        if isinstance(a, ast.Name):
+            # d = deque(job)  |  d = deque(); d.extend(job)
+            dd = [n for st in lp.body for n in ast.walk(st) if isinstance(n, (ast.Assign, ast.AnnAssign)) and n.value is not None
+                  and any(isinstance(t, ast.Name) and t.id == a.id for t in (n.targets if isinstance(n, ast.Assign) else [n.target]))]
+            if len(dd) != 1:
+                return False
+            if is_deque_call(dd[0].value, True):
+                return True
+            if is_deque_call(dd[0].value, False):
+                ext = [
+                    c for st in lp.body for c in ast.walk(st)
+                    if isinstance(c, ast.Call) and isinstance(c.func, ast.Attribute) and c.func.attr == "extend"
+                    and isinstance(c.func.value, ast.Name) and c.func.value.id == a.id
+                    and len(c.args) == 1 and isinstance(c.args[0], ast.Name) and c.args[0].id == job
+                ]
+                return len(ext) == 1
+        return False
+    return False
 
 
 def _shallow_source(v, selfname):
